@@ -511,7 +511,7 @@ Proof.
   intros HF HS Hl He.
   assert (Stay : SI s gl' a') by (eapply si_stay; eauto).
   pose proof HF as [HR [HI [H8 [HM HC]]]]. pose proof HS as [S1 S2 S3 S4].
-  destruct o as [i|i|i|i|i p ok|k ok|i]; cbn [gstep].
+  destruct o as [i|i|i|i|i p ok|k ok|i|i ok]; cbn [gstep].
   - (* GElect *)
     unfold valid_id. destruct (N.ltb_spec i (n_nodes cfg)) as [Hi|]; cbn [fst]; [|exact Stay].
     apply (si_frame s gl a gl' a' i); auto.
@@ -615,6 +615,13 @@ Proof.
     all: try (intros ? ? ? ? ? ? ? []; fail).
     all: try (intros ? ? ? ? ? ? []; fail).
     apply K2_nl; cbn; auto; try lia; discriminate.
+  - (* GTimeoutNow *)
+    unfold valid_id. destruct (N.ltb_spec i (n_nodes cfg)) as [Hi|]; cbn [fst]; [|exact Stay].
+    destruct ok; cbn [fst]; [|exact Stay].
+    apply (si_frame s gl a gl' a' i); auto.
+    all: try (intros ? ? ? ? ? ? ? []; fail).
+    all: try (intros ? ? ? ? ? ? []; fail).
+    apply K2_nl; cbn; auto; try lia; discriminate.
 Qed.
 
 (* ---------------- runs ---------------- *)
@@ -623,8 +630,9 @@ Definition SFI (s : sys) (gl : ledger) (a : Vote.sys) : Prop := FIa s gl a /\ SI
 Lemma pool_step s o e : In e (pool s) -> In e (pool (fst (gstep cfg ru s o))).
 Proof.
   intros H. assert (U : forall i x out, In e (pool (upd_node s i x out))) by (intros; apply pool_upd; left; exact H).
-  destruct o as [i|i|i|i|i p ok|k ok|i]; cbn [gstep]; unfold valid_id;
-    try (destruct (N.ltb i (n_nodes cfg)); cbn [fst]; auto; fail).
+  destruct o as [i|i|i|i|i p ok|k ok|i|i ok]; cbn [gstep]; unfold valid_id;
+    try (destruct (N.ltb i (n_nodes cfg)); cbn [fst]; auto; fail);
+    try (destruct (N.ltb i (n_nodes cfg)); cbn [fst]; auto; destruct ok; cbn [fst]; auto; fail).
   - destruct (N.ltb i (n_nodes cfg)); cbn [fst]; auto. destruct (rl (nd_of s i)); auto.
   - destruct (nth_error (pool s) (N.to_nat k)) as [[[src dst] m]|]; cbn [fst]; auto.
     destruct (N.ltb dst (n_nodes cfg)); cbn [fst]; auto.
